@@ -10,6 +10,7 @@ import (
 	"bytes"
 	"fmt"
 	poolpkg "github.com/IrineSistiana/mosproxy/internal/pool"
+	"os"
 	"strings"
 	"testing"
 	"time"
@@ -51,7 +52,7 @@ func c07MemScenario(c *choice.Ctx, rep *report.R, variant int) {
 		if s != nil {
 			tr = strings.Join(s.Trace, " ")
 		}
-		rep.Violate("C07:mem:"+sig, fmt.Sprintf("%s\n  variant %d schedule: %s", msg, variant, tr), map[string]any{"Choices": c.Choices(), "Variant": variant})
+		rep.Violate(c07MemProp()+":mem:"+sig, fmt.Sprintf("%s\n  variant %d schedule: %s", msg, variant, tr), map[string]any{"Choices": c.Choices(), "Variant": variant})
 	}
 	get := func(k string) {
 		v, _, _ := mc.Get([]byte(k))
@@ -161,3 +162,11 @@ func TestVerifC07Mem(t *testing.T) {
 }
 
 func poolRelease(b []byte) { poolpkg.ReleaseBuf(b) }
+
+// the same exploration serves C07 (d), C04 (eviction pressure) and C20 (recycled memory): the orchestrator names the property
+func c07MemProp() string {
+	if p := os.Getenv("VERIF_PROP"); p != "" {
+		return p
+	}
+	return "C07"
+}
